@@ -37,8 +37,14 @@ def run(ctx, rep):
     if wm:
         mt = tables.first_match(wm[1]["body"])
         for (p, b, g, ln) in tables.rows(mt["arms"]) if mt else []:
-            if p[0] == "var" and b[0] == "method" and b[1] == "write_options":
-                write[p[1]] = (b[2], ln)
+            if p[0] != "var":
+                continue
+            if b[0] == "return" and b[1] is not None:
+                b = b[1]
+            if b[0] == "method" and b[1] == "write_options":
+                write[p[1]] = (b[2], ln)           # `[b'X', b'F', b'G', 0].write_options(..)` / `vehmod.write_options(..)`
+            elif b[0] in ("seq", "path"):
+                write[p[1]] = (b, ln)              # the arm yields the wire bytes, written once after the match
     # ---- display / debug
     names = {}
     for trait in ("Display", "Debug"):
